@@ -144,7 +144,9 @@ func runEpisode(sc *Scenario) *Result {
 		return fail("harness-error", "tmpdir", err.Error())
 	}
 	ep.dir = dir
-	defer os.RemoveAll(dir)
+	if os.Getenv("VERIF_KEEP") == "" {
+		defer os.RemoveAll(dir)
+	}
 
 	switch sc.Family {
 	case "load":
@@ -640,6 +642,7 @@ func (ep *episode) bind2(jr *jobRun, s sdf.SDF2, r render.Render2, faulty bool) 
 		check(&jr.res.AtEnd)
 		if !faulty {
 			jr.res.Digest = jr.state.digest()
+			jr.res.Digest2 = jr.state.digestNoOwner()
 		}
 	}
 	return nil
